@@ -26,8 +26,8 @@ class NtTriplesYielder(BaseTriplesYielder):
         self._reset_count()
         for a_line in self._line_reader.read_lines():
             tokens = self._look_for_tokens(a_line.strip())
-            if len(tokens) == 0 and a_line.strip().startswith("#"):
-                continue  # Comment line, not an error
+            if len(tokens) == 0 and (a_line.strip() == "" or a_line.strip().startswith("#")):
+                continue  # Blank or comment line, not an error
             if len(tokens) != 3:
                 self._error_triples += 1
                 log_msg(verbose=False, msg="This line was discarded: " + a_line)
